@@ -278,8 +278,6 @@ Record env := {
   e_view_ok     : bool;  (* proposal: lastVoted < block view <= local view *)
   e_vote_rule   : bool;  (* proposal: ruler.VoteRule(view, proposal) *)
   e_qc_match    : bool;  (* proposal: the block QC has the view and hash of the high QC found in the AggQC *)
-  e_hq_signed   : bool;  (* proposal: that high QC carries a signature (the genesis QC does not) *)
-  e_sig_same    : bool;  (* proposal: block QC and high QC signatures have equal bytes *)
   e_leader_ok   : bool;  (* proposal: sender is the leader of the block's view *)
   e_vote_reach  : bool;  (* vote: a voting machine is registered (no Kauri tree), the block is in the
                             local store and newer than the high QC's view *)
@@ -290,7 +288,9 @@ Record env := {
 
 (* QuorumCert.Equals(other): view, hash, then the signatures; with exactly one signature nil the
    certificates differ — signature.ToBytes() on the nil interface would panic.
-   vh_eq = views and hashes are equal; a / b = this / the other certificate has a signature. *)
+   vh_eq = views and hashes are equal; a / b = this / the other certificate has a signature.
+   Since /repo d1e8a5e no handler calls Equals any more (VerifyAnyQC compares view and hash itself); the
+   function is modelled and checked on its own (direct calls, case EQ of Corr/C10.v). *)
 Definition qc_equals (g : guards) (vh_eq a b same_bytes : bool) : result bool :=
   if negb vh_eq then Ok false
   else match a, b with
@@ -309,13 +309,7 @@ Definition verify_any_qc (c : cfg) (e : env) (bqc : dqc) (agg : option dagg) : r
         match (if g_agg_any (c_g c) then match da_sig a with None => Ok false | Some _ => verify_agg c a end
                else verify_agg c a) with
         | Panic => Panic
-        | Ok true =>
-            match qc_equals (c_g c) (e_qc_match e)
-                    (match dq_sig bqc with None => false | Some _ => true end) (e_hq_signed e) (e_sig_same e) with
-            | Panic => Panic
-            | Ok true => rest
-            | _ => Ok false
-            end
+        | Ok true => if e_qc_match e then rest else Ok false   (* view and block hash only; the block QC is verified by rest *)
         | _ => Ok false
         end
     end
